@@ -31,12 +31,18 @@ MC_Worlds ==
   ELSE IF w = "free" THEN {Pts(MC_T)}
   ELSE { Pts(MC_T), Pts(MC_T) \ {n \div 2}, Pts(MC_T) \ {0}, Pts(MC_T) \ {n - 1}, Pts(MC_T) \ {1, n - 2} }
 
+\* bounds of the space: all points, or the index interval 0..V_REGION_HI (on a ring: an arc)
+RegionHi == EnvInt("V_REGION_HI", MC_T.n - 1)
+MC_Region == {p \in Pts(MC_T) : p <= RegionHi}
+
 Interval(a, b) == {p \in Pts(MC_T) : a <= p /\ p <= b}
 \* P1: start at the low end, goal at the high end (point / interval / middle);
 \* P2: the mirror image, so that answering a stale problem is visible
 MC_Problems ==
   LET n == MC_T.n IN
-  IF EnvOr("V_PROBLEMS", "many") = "one"
+  IF EnvOr("V_PROBLEMS", "many") = "region"
+    THEN { << [start |-> 0, goal |-> {RegionHi}], [start |-> RegionHi, goal |-> {0}] >> }
+  ELSE IF EnvOr("V_PROBLEMS", "many") = "one"
     THEN { << [start |-> 0, goal |-> {n - 1}], [start |-> n - 1, goal |-> {0}] >> }
     ELSE { << [start |-> s, goal |-> g], [start |-> n - 1, goal |-> {0}] >> :
              s \in {0, 1}, g \in {{n - 1}, Interval(n - 2, n - 1), {n \div 2}} }
